@@ -1,3 +1,4 @@
 -- Property files of work group E (import UF.Props.Cxx lines go here).
 import UF.Driver.Ops.GroupE
 import UF.Props.C04
+import UF.Props.C12
